@@ -78,7 +78,7 @@ func baseWeights(prop string) map[string]int {
 		"markused": 3, "lock": 5, "unlock": 9, "chpass": 2, "newaccount": 3, "newraw": 1,
 		"rename": 2, "acctquery": 3, "newwatch": 3, "importpriv": 3, "importpub": 2,
 		"importscript": 3, "setsynced": 2, "syncquery": 1, "restart": 3, "crashrestart": 1,
-		"newscope": 2, "clock": 1,
+		"newscope": 2, "clock": 1, "dropaccts": 1,
 	}
 	switch prop {
 	case "C03":
@@ -91,6 +91,7 @@ func baseWeights(prop string) map[string]int {
 		w["crashrestart"] = 2
 	case "C05":
 		w["lock"], w["unlock"], w["derivecache"], w["chpass"], w["restart"] = 10, 16, 8, 5, 4
+		w["dropaccts"] = 4
 		w["importscript"], w["importpriv"] = 5, 4
 		w["convert"] = 1
 		w["setsynced"], w["syncquery"], w["acctquery"], w["lookupmiss"], w["rename"], w["crashrestart"] = 0, 0, 0, 0, 0, 0
@@ -256,6 +257,8 @@ func (sim) Generate(prop, tier string, seed uint64) *core.Plan {
 		case "rename":
 			m, kk := mode()
 			a = []int64{scopeArg(), int64(r.Intn(6)), int64(r.Intn(5)), m, kk}
+		case "dropaccts":
+			a = []int64{scopeArg(), int64(r.Intn(6)), int64(r.Intn(3))}
 		case "acctquery":
 			a = []int64{scopeArg(), int64(r.Intn(6))}
 		case "newwatch":
